@@ -117,7 +117,7 @@ Theorem c03_full_fixed_fails_clean : forall hash cap g progs s t i o,
   Reach hash cap g progs s -> event s t i o RFull ->
   ~ In (t, i) (consumed s) /\ is_find o = false /\
   exists t0, nth_error (tabs s) 0 = Some t0 /\ tab_passed hash t0 (okey o).
-Proof. intros hash cap g progs s t i o R E. split; [exact (hc_full_no_consume hash cap g progs s t i o R E)|exact (hc_full_fails hash cap g progs s t i o R E)]. Qed.
+Proof. exact hc_full_fails_clean. Qed.
 Print Assumptions c03_full_fixed_fails_clean.
 
 (* the memory orders the argument relies on are the ones in the source (regenerated site tables): acquire fence after
